@@ -38,3 +38,186 @@ Print Assumptions C12_submitted_message.
 Print Assumptions C12_retry_handle.
 (* non-vacuity: RetryInv_WireEx.ex_run_nonvacuous, ex_handle_publish, ex_handle_pubrel *)
 Print Assumptions ex_run_nonvacuous.
+
+(* ---------- the base client's retry handle in isolation, with real packet identifiers and a
+   signaller that already holds waiters of other requests (model RetryHandle.v, proofs in
+   RetryHandle_proofs.v; tied to the real BaseClient by the harness family "handle") ----------
+   [publish_chain w m s0 ss]: Publish of m on client (bs_k s0) of ANY world w (any number of clients,
+   connected or not, open or closed, any content of the five signaller maps), then Retry of each
+   returned ErrorWithRetry on the client named by the next step, for ANY number of steps; before each
+   attempt other requests register / unregister arbitrary waiters on the target (bs_ops), also
+   under m's own identifier; each attempt is interrupted (or not) as its environment says: Write
+   fails, connection closed / ctx done while waiting, at the PUBLISH and at the PUBREL step. *)
+From MQ Require Import RetryHandle RetryHandle_proofs.
+
+(* "Whenever the client transmits a PUBLISH for a message again it carries the same packet identifier,
+   topic, payload, QoS and retain flag as the first transmission and has DUP=1, while first
+   transmissions have DUP=0 ... Once the client has sent PUBREL ... never PUBLISH again, only PUBREL with
+   the same identifier; the same holds for the retry handle".
+   [chain_faithful m l]: l starts with PUBLISH DUP=0 carrying m's topic, payload, QoS, retain and m's
+   identifier (a non-zero one if the caller left it 0); every later PUBLISH equals it in all fields
+   (identifier included), has DUP=1 and precedes every PUBREL; every PUBREL has that identifier.
+   Hypothesis: the message has an identifier or newID hands out a non-zero one (C15_nonzero). *)
+Theorem C12_handle_chain_faithful :
+  forall w m s0 ss w' o,
+    (h_id m <> 0%N \/ bs_fresh s0 <> 0%N) ->
+    publish_chain w m s0 ss = (w', o) ->
+    exists rest, bw_wire w' = bw_wire w ++ rest /\ chain_faithful m (map snd rest) = true.
+Proof. exact handle_chain_faithful. Qed.
+
+(* the same for a handle obtained after PUBREC, on its own: whatever chain of retries is run from it
+   writes only PUBREL packets with the message's identifier, and ends with nil, ErrNotConnected or the
+   same kind of handle *)
+Theorem C12_handle_after_pubrec_only_pubrel :
+  forall m c ss w n w' o,
+    run_chain w (BoHandle (BhPubRel m) c) n ss = (w', o) ->
+    exists rest, bw_wire w' = bw_wire w ++ rest /\
+      (forall x, In x rest -> exists k ok, x = (k, WRel (h_id m) ok)) /\
+      (o = BoDone \/ o = BoNotConnected \/ exists c', o = BoHandle (BhPubRel m) c').
+Proof. exact handle_after_pubrec_only_pubrel. Qed.
+
+(* what a handle writes, and how the attempt ends, is determined by the handle, by the target being
+   initialised / open and by the environment: two runs of one handle on targets that agree on these
+   write the same packets whatever waiters the two signallers hold (e.g. one of them another
+   un-acknowledged request under the same identifier), whatever newID would return and whoever calls *)
+Theorem C12_handle_independent_of_signaller :
+  forall wa wb ka kb h fa fb oa ob env wa' ma outa wb' mb outb,
+    h_id (bh_msg h) <> 0%N ->
+    bc_inited (bw_get wa ka) = bc_inited (bw_get wb kb) ->
+    bc_open (bw_get wa ka) = bc_open (bw_get wb kb) ->
+    run_handle wa ka h fa oa env = (wa', ma, outa) ->
+    run_handle wb kb h fb ob env = (wb', mb, outb) ->
+    exists l, bw_wire wa' = bw_wire wa ++ map (pair ka) l /\ bw_wire wb' = bw_wire wb ++ map (pair kb) l
+              /\ outa = outb /\ ma = mb.
+Proof. exact run_handle_signaller_independent. Qed.
+
+(* "QoS 0 messages are never retransmitted": Publish of a QoS 0 message never returns a handle *)
+Theorem C12_handle_qos0_none :
+  forall w k m fresh owner env w' m' o,
+    h_qos m = 0%N -> base_publish w k m fresh owner env = (w', m', o) -> forall h c, o <> BoHandle h c.
+Proof. exact qos0_no_handle. Qed.
+
+(* Not a clause of C12, recorded because the family exercises it: when the handle runs on a client on
+   which ANOTHER request waits under the same identifier in the same signaller map, that request's
+   waiter is replaced (it can no longer be signalled; identifier uniqueness is C15's subject, routing
+   C07's); waiters under other identifiers and other clients are untouched *)
+Theorem C12_handle_collision_overwrites :
+  forall w k h fresh owner env w' m o o',
+    h_id (bh_msg h) <> 0%N -> (1 <= h_qos (bh_msg h) <= 2)%N ->
+    bc_inited (bw_get w k) = true ->
+    reg_val w k (handle_kind h) (h_id (bh_msg h)) = Some o' -> o' <> owner ->
+    run_handle w k h fresh owner env = (w', m, o) ->
+    reg_val w' k (handle_kind h) (h_id (bh_msg h)) <> Some o'.
+Proof. exact handle_collision_overwrites. Qed.
+
+Theorem C12_handle_other_ids_untouched :
+  forall w k h fresh owner env w' m o,
+    h_id (bh_msg h) <> 0%N ->
+    run_handle w k h fresh owner env = (w', m, o) ->
+    (forall kd j, j <> h_id (bh_msg h) -> reg_val w' k kd j = reg_val w k kd j)
+    /\ (forall k', k' <> k -> bw_get w' k' = bw_get w k').
+Proof. exact handle_other_ids_untouched. Qed.
+
+Print Assumptions C12_handle_chain_faithful.
+Print Assumptions C12_handle_after_pubrec_only_pubrel.
+Print Assumptions C12_handle_independent_of_signaller.
+Print Assumptions C12_handle_qos0_none.
+Print Assumptions C12_handle_collision_overwrites.
+Print Assumptions C12_handle_other_ids_untouched.
+(* non-vacuity: RetryHandle_proofs.ex_chain (4 attempts on 3 clients, other requests under the same
+   identifier in three maps), ex_chain_lib (library-numbered), ex_collision *)
+Print Assumptions ex_chain.
+
+(* ---------- the two models connected (RetryHandle_refine.v) ----------
+   The system model's attempts (RetryCore: a fault plan decides each packet's fate) refine the
+   base-client handle model (RetryHandle: the interruption point is an explicit environment).
+   Mapping: message [to_hmsg] (identifier = ghost uid); client flags bc_inited = cl_inited, bc_open =
+   cl_alive (signaller maps unrelated: they do not matter); environment of the next packet of a
+   connection = [senv_of_fkind] of the plan's entry for it (FNone -> acknowledged, FWriteFail -> Write
+   fails, FLostAfter / FAckLost -> connection closed while waiting, FSilentReq / FSilentAck -> ctx done
+   while waiting), a dead client = a closed transport; wire [wire_proj] (PUBLISH with DUP and
+   identifier, PUBREL with identifier, Write ok or not; SUBSCRIBE / UNSUBSCRIBE dropped); result
+   [ares_rel] (ADone ~ nil, AFail (RPublish m | RPubRel m) ~ the handle of the same kind for to_hmsg m
+   with ETimeout iff the cause is the context, ANoRetry ENotConnected ~ ErrNotConnected, ANoRetry EConn ~
+   plain write error of QoS 0, AHung ~ what the call returns once its context is cancelled). *)
+From MQ Require Import RetryHandle_refine.
+
+(* what [send] returns for a packet is the handle model's effective environment of that packet *)
+Theorem C12_refine_send_env :
+  forall cfg fp w k p w' r,
+    send cfg fp w k p = (w', r) ->
+    senv_of_cres r = bh_eff (cl_alive (get_client w k))
+                       (senv_of_fkind (eff_fkind fp (get_client w k) k (cl_sent (get_client w k)))).
+Proof. exact send_env. Qed.
+
+(* attempt_publish on client k of ANY world, against pub_attempt on ANY handle-model client that agrees
+   on initialised / alive, under the mapped environment: same packets (projected), same message,
+   related results *)
+Theorem C12_refine_attempt_publish :
+  forall cfg fp w k m dup w' r bw kb fresh owner bw' m' o,
+    (p_qos m <= 2)%N -> p_uid m <> 0%nat ->
+    bc_inited (bw_get bw kb) = cl_inited (get_client w k) ->
+    bc_open (bw_get bw kb) = cl_alive (get_client w k) ->
+    attempt_publish cfg fp w k m dup = (w', r) ->
+    pub_attempt bw kb (to_hmsg m) dup fresh owner (env_pub fp w k) = (bw', m', o) ->
+    exists ext, w_wire w' = w_wire w ++ ext
+      /\ bw_wire bw' = bw_wire bw ++ map (pair kb) (wire_proj ext)
+      /\ m' = to_hmsg m
+      /\ ares_rel m r o.
+Proof. exact attempt_publish_refines. Qed.
+
+(* likewise run_entry on the entries that stand for a handle (RPublish m / RPubRel m) against run_handle *)
+Theorem C12_refine_run_entry :
+  forall cfg fp w k e h w' r bw kb fresh owner bw' m' o m,
+    (e = RPublish m \/ e = RPubRel m) ->
+    (p_qos m <= 2)%N -> p_uid m <> 0%nat ->
+    handle_of e = Some h ->
+    bc_inited (bw_get bw kb) = cl_inited (get_client w k) ->
+    bc_open (bw_get bw kb) = cl_alive (get_client w k) ->
+    run_entry cfg fp w k e = (w', r) ->
+    run_handle bw kb h fresh owner (match e with RPubRel _ => env_rel fp w k | _ => env_pub fp w k end) = (bw', m', o) ->
+    exists ext, w_wire w' = w_wire w ++ ext
+      /\ bw_wire bw' = bw_wire bw ++ map (pair kb) (wire_proj ext)
+      /\ m' = to_hmsg m
+      /\ ares_rel m r o.
+Proof. exact run_entry_refines. Qed.
+
+(* SIMULATION of whole chains: [sys_publish_chain cfg fp m s0 ss] = the wire entries of the first
+   transmission of m in world (ss_w s0) on client (ss_k s0) followed by those of every returned entry
+   run in the (arbitrary) world and on the client of the next step; there is a chain of the handle
+   model (Publish of to_hmsg m, then Retry of each handle; attempt i on client i of [sim_world], which
+   mirrors the system clients; environments read off the fault plan) writing exactly its projection *)
+Theorem C12_refine_chain_simulated :
+  forall cfg fp m s0 ss,
+    (p_qos m <= 2)%N -> p_uid m <> 0%nat ->
+    let r0 := snd (attempt_publish cfg fp (ss_w s0) (ss_k s0) m false) in
+    let first := {| bs_k := 0%nat; bs_ops := []; bs_fresh := 0%N; bs_env := env_pub fp (ss_w s0) (ss_k s0) |} in
+    exists bw' o',
+      publish_chain (sim_world s0 ss) (to_hmsg m) first (sim_steps cfg fp r0 1%nat ss) = (bw', o')
+      /\ map snd (bw_wire bw') = wire_proj (sys_publish_chain cfg fp m s0 ss).
+Proof. exact sys_chain_simulated. Qed.
+
+(* hence C12_handle_chain_faithful transfers to every chain of attempts the system model makes for
+   one message (any worlds, clients, fault plan, configuration) *)
+Theorem C12_refine_chain_faithful :
+  forall cfg fp m s0 ss,
+    (p_qos m <= 2)%N -> p_uid m <> 0%nat ->
+    chain_faithful (to_hmsg m) (wire_proj (sys_publish_chain cfg fp m s0 ss)) = true.
+Proof. exact sys_chain_faithful_via_handle. Qed.
+
+(* and the handle-level predicate implies the system-level predicates C12_faithful /
+   C12_no_publish_after_pubrel are stated with, on ANY list of wire entries and for every identifier *)
+Theorem C12_refine_predicates_agree :
+  forall m0 L,
+    chain_faithful m0 (wire_proj L) = true ->
+    forall u, faithful (pub_entries u L) = true /\ no_publish_after_rel u L = true.
+Proof. exact chain_faithful_system_predicates. Qed.
+
+Print Assumptions C12_refine_send_env.
+Print Assumptions C12_refine_attempt_publish.
+Print Assumptions C12_refine_run_entry.
+Print Assumptions C12_refine_chain_simulated.
+Print Assumptions C12_refine_chain_faithful.
+Print Assumptions C12_refine_predicates_agree.
+(* non-vacuity: RetryHandle_refine.ex_sys_chain *)
+Print Assumptions ex_sys_chain.
